@@ -357,7 +357,7 @@ func (e *Enc) frameObligations(c *Contract, env *CEnv, rets []*Exit) {
 	sort.Strings(keys)
 	alloc0 := e.heapGet(e.entryState, "$alloc")
 	for _, k := range keys {
-		if strings.HasPrefix(k, "RS:") {
+		if strings.HasPrefix(k, "RS:") || strings.HasPrefix(k, "RN:") {
 			continue // iteration ghosts are local to the activation
 		}
 		if strings.HasPrefix(k, "ghost:") {
@@ -534,6 +534,10 @@ func (e *Enc) header() string {
 			if !ok {
 				continue
 			}
+			if e.usedAxioms == nil {
+				e.usedAxioms = map[string]bool{}
+			}
+			e.usedAxioms[strings.Join(it.Needs, ",")] = true
 		}
 		sb.WriteString(it.Text + "\n")
 	}
